@@ -56,7 +56,18 @@ type Op struct {
 	Slots  []SlotSpec
 	Apply  func(db *gorm.DB, c *Ctx, v []Val) *gorm.DB
 	Core   bool // member of the reduced alphabet (3-call programs)
-	Unique bool // at most once per program (a repeated call is ignored by gorm by design)
+	// UniqueKey: at most one call with this key per program (a repeated
+	// relation join is ignored by gorm by design; two bare "?" templates of the
+	// same kind would be governed by the same keyword).
+	UniqueKey string
+	// BareJoin: Joins("?", v) — only without another join in the program (a
+	// preceding join's column would be adjacent to its placeholder).
+	BareJoin bool
+	// NeedsSchema: the call only works with a model (relation joins); with a
+	// schema-less finisher gorm treats it as a raw join without arguments.
+	NeedsSchema bool
+	// Bare: shortest-spelling template call ("?" / "(?)")
+	Bare   bool
 	NoExec bool // not used on the real SQLite dialector (its LIMIT builder inlines)
 }
 
@@ -235,11 +246,11 @@ func buildOps() []*Op {
 		Apply: func(db *gorm.DB, c *Ctx, v []Val) *gorm.DB {
 			return db.Joins(c.tpl("JOIN t2 j ON {0} = @a AND {1} IN (?)"), v[1].V, sql.Named("a", v[0].V))
 		}})
-	add(&Op{Label: `Joins("Other", db.Where("{0} = ? OR {1} IN ?", v, w))`, Clause: "JOIN", Slots: []SlotSpec{anySlot(0), inSlot(1)}, Core: true, Unique: true,
+	add(&Op{Label: `Joins("Other", db.Where("{0} = ? OR {1} IN ?", v, w))`, Clause: "JOIN", Slots: []SlotSpec{anySlot(0), inSlot(1)}, Core: true, UniqueKey: "relation-join", NeedsSchema: true,
 		Apply: func(db *gorm.DB, c *Ctx, v []Val) *gorm.DB {
 			return db.Joins("Other", c.Base.Where(c.tpl("{0} = ? OR {1} IN ?"), v[0].V, v[1].V))
 		}})
-	add(&Op{Label: `InnerJoins("Other", db.Where(map{{0}:v}))`, Clause: "JOIN", Slots: []SlotSpec{anySlot(0)}, Unique: true,
+	add(&Op{Label: `InnerJoins("Other", db.Where(map{{0}:v}))`, Clause: "JOIN", Slots: []SlotSpec{anySlot(0)}, UniqueKey: "relation-join", NeedsSchema: true,
 		Apply: func(db *gorm.DB, c *Ctx, v []Val) *gorm.DB {
 			return db.InnerJoins("Other", c.Base.Where(map[string]interface{}{c.Col(0): v[0].V}))
 		}})
@@ -288,6 +299,61 @@ func buildOps() []*Op {
 		}})
 	add(&Op{Label: `Clauses(clause.OnConflict{UpdateAll:true})`, Clause: "ONCONFLICT",
 		Apply: func(db *gorm.DB, c *Ctx, v []Val) *gorm.DB { return db.Clauses(clause.OnConflict{UpdateAll: true}) }})
+	// named arguments in further template-taking calls
+	add(&Op{Label: `Joins("JOIN t2 k ON {0} = @a AND {1} = @b", map{a,b})`, Clause: "JOIN", Slots: []SlotSpec{anySlot(0), anySlot(1)},
+		Apply: func(db *gorm.DB, c *Ctx, v []Val) *gorm.DB {
+			return db.Joins(c.tpl("JOIN t2 k ON {0} = @a AND {1} = @b"), map[string]interface{}{"a": v[0].V, "b": v[1].V})
+		}})
+	add(&Op{Label: `Joins("JOIN t2 m ON {0} = @A OR {1} IN @B", struct{A,B})`, Clause: "JOIN", Slots: []SlotSpec{anySlot(0), inSlot(1)},
+		Apply: func(db *gorm.DB, c *Ctx, v []Val) *gorm.DB {
+			return db.Joins(c.tpl("JOIN t2 m ON {0} = @A OR {1} IN @B"), named{A: v[0].V, B: v[1].V})
+		}})
+	add(&Op{Label: `Order(clause.OrderBy{Expression: NamedExpr("{0} = @a DESC", Named(a))})`, Clause: "ORDER", Slots: []SlotSpec{anySlot(0)},
+		Apply: func(db *gorm.DB, c *Ctx, v []Val) *gorm.DB {
+			return db.Order(clause.OrderBy{Expression: clause.NamedExpr{SQL: c.tpl("{0} = @a DESC"), Vars: []interface{}{sql.Named("a", v[0].V)}}})
+		}})
+
+	// shortest spellings of the template-taking calls: just "?" or "(?)" — no
+	// space, no quote, no column; the placeholder is governed by its keyword
+	bare := func(key string, first Class) []SlotSpec {
+		cl := []Class{first}
+		for _, c := range AnyClasses {
+			if c != first {
+				cl = append(cl, c)
+			}
+		}
+		return []SlotSpec{{Key: key, Classes: cl}}
+	}
+	for _, t := range []string{"(?)", "?"} {
+		t := t
+		first := CSub
+		if t == "?" {
+			first = CExpr
+		}
+		add(&Op{Label: `Table("` + t + `", v)`, Clause: "TABLE", Slots: bare("TABLE", first), UniqueKey: "bare-table", Bare: true, Core: t == "(?)",
+			Apply: func(db *gorm.DB, c *Ctx, v []Val) *gorm.DB { return db.Table(t, v[0].V) }})
+		add(&Op{Label: `Select("` + t + `", v)`, Clause: "SELECT", Slots: bare("SELECT", first), Bare: true,
+			Apply: func(db *gorm.DB, c *Ctx, v []Val) *gorm.DB { return db.Select(t, v[0].V) }})
+		add(&Op{Label: `Where("` + t + `", v)`, Clause: "WHERE", Slots: bare("COND", first), UniqueKey: "bare-cond", Bare: true,
+			Apply: func(db *gorm.DB, c *Ctx, v []Val) *gorm.DB { return db.Where(t, v[0].V) }})
+	}
+	add(&Op{Label: `Joins("?", v)`, Clause: "JOIN", Slots: bare("TABLE", CExpr), UniqueKey: "bare-table", BareJoin: true, Bare: true,
+		Apply: func(db *gorm.DB, c *Ctx, v []Val) *gorm.DB { return db.Joins("?", v[0].V) }})
+	add(&Op{Label: `Not("?", v)`, Clause: "WHERE", Slots: bare("COND", CExpr), UniqueKey: "bare-cond", Bare: true,
+		Apply: func(db *gorm.DB, c *Ctx, v []Val) *gorm.DB { return db.Not("?", v[0].V) }})
+	add(&Op{Label: `Or("?", v)`, Clause: "WHERE", Slots: bare("COND", CExpr), UniqueKey: "bare-cond", Bare: true,
+		Apply: func(db *gorm.DB, c *Ctx, v []Val) *gorm.DB { return db.Or("?", v[0].V) }})
+	add(&Op{Label: `Having("?", v)`, Clause: "HAVING", Slots: bare("COND", CExpr), UniqueKey: "bare-cond", Bare: true,
+		Apply: func(db *gorm.DB, c *Ctx, v []Val) *gorm.DB { return db.Having("?", v[0].V) }})
+	add(&Op{Label: `Clauses(clause.Expr{"?", v})`, Clause: "WHERE", Slots: bare("COND", CExpr), UniqueKey: "bare-cond", Bare: true,
+		Apply: func(db *gorm.DB, c *Ctx, v []Val) *gorm.DB {
+			return db.Clauses(clause.Expr{SQL: "?", Vars: []interface{}{v[0].V}})
+		}})
+	add(&Op{Label: `Order(clause.OrderBy{Expression: Expr("?", v)})`, Clause: "ORDER", Slots: bare("ORDER", CExpr), Bare: true,
+		Apply: func(db *gorm.DB, c *Ctx, v []Val) *gorm.DB {
+			return db.Order(clause.OrderBy{Expression: clause.Expr{SQL: "?", Vars: []interface{}{v[0].V}}})
+		}})
+
 	// explicit RETURNING: makes the update / delete / create executors take
 	// their query-and-scan branch instead of the plain exec branch
 	add(&Op{Label: `Clauses(clause.Returning{})`, Clause: "RETURNING", Core: true,
